@@ -79,6 +79,9 @@ var subE2E = ev.Register("storable-e2e",
 			for _, l := range fr.Expires {
 				h.Add("Expires", l)
 			}
+			if fr.Date != "" {
+				h["Date"] = []string{fr.Date}
+			}
 			if c.Location && status >= 300 && status < 400 {
 				h.Set("Location", "/elsewhere")
 			}
